@@ -131,7 +131,7 @@ def ask(ctx, op):
 def run(ctx):
     quick = ctx.tier == 'quick'
     rs0 = np.random.RandomState(np_seed(ctx.sub_rng('cfg')))
-    torch.set_num_threads(4)
+    torch.set_num_threads(1)
     # ------------------------------------------------------------------ exact index arithmetic vs the model
     n_made = 14 if quick else 120
     for k in range(n_made):
